@@ -6,14 +6,23 @@ ID = "C38"
 COQ_FILES = ["Common/Bytes.v", "Common/Corr.v", "Model/Char6.v", "Model/Intern.v",
              "Proofs/Char6.v", "Proofs/Intern.v", "Props/C38.v"]
 PROPS = "Props/C38.v"
-THEOREMS = ["C38_char6_roundtrip", "C38_char6_injective", "C38_char6_negative_nonzero",
-            "C38_char6_image", "C38_char6_onto", "C38_char6_encodable_iff",
-            "C38_query_present_iff", "C38_query_present_iff_history",
-            "C38_intern_equal_strings_equal_ids", "C38_intern_distinct_strings_distinct_ids",
-            "C38_intern_value_roundtrip", "C38_intern_ids_disjoint_classes", "C38_intern_log_nodup",
+THEOREMS = ["C38_char6_roundtrip",
+            "C38_char6_injective",
+            "C38_char6_negative_nonzero",
+            "C38_char6_image",
+            "C38_char6_onto",
+            "C38_char6_encodable_iff",
+            "C38_query_present_iff",
+            "C38_query_present_iff_history",
+            "C38_intern_index_log_invariant",
+            "C38_intern_log_nodup",
+            "C38_intern_equal_strings_equal_ids",
+            "C38_intern_distinct_strings_distinct_ids",
+            "C38_intern_value_roundtrip",
+            "C38_intern_ids_disjoint_classes",
             "C38_intern_no_panic_below_limit",
-            "C38_intern_deadlock_free", "C38_intern_terminates_weak_fairness",
-            "C38_intern_sequential_run"]
+            "C38_intern_deadlock_free",
+            "C38_intern_terminates_weak_fairness"]
 AXIOMS_OK = []
 TRUSTED = ["hand-written Gallina models of char6.go (encodeChar6/encodeOutlined/decodeChar6) and of intern.go (Query, Intern/internSlow, Value)",
            "correspondence harness (harness/cmd/intern) + verif hook internal/intern/verif_hooks.go exposing encodeChar6/decodeChar6 and the two tables"]
